@@ -313,6 +313,8 @@ class Runner:
                 if op.get('do_fsync') is False:
                     kw['do_fsync'] = False
                 via = op.get('via', 'bytes')
+                if op.get('callback') and via in ('bytes', 'streams'):
+                    kw['callback'] = lambda action, value: None
                 if via == 'bytes':
                     keys = c.add_objects_to_pack(datas, **kw)
                 elif via == 'streams':
@@ -373,10 +375,12 @@ class Runner:
                     if any(a != b and b in known_before for a, b in zip(cids, op['cs'])):
                         self._fail('C09', 'known-content-other-key', f're-adding known content returned a different key: {cids} for {op["cs"]}')
                 return f'keys={show_nats(cids)}'
+            cb_calls: list = []
+            cb_kw = {'callback': (lambda action, value: cb_calls.append(action))} if op.get('callback') else {}
             if kind == 'packAll':
                 c.pack_all_loose(compress=_mode_obj(rc.dos, op['mode']), validate_objects=op.get('validate', True),
                                  clean_loose_per_pack=op.get('clean', False),
-                                 **({'do_fsync': False} if op.get('do_fsync') is False else {}))
+                                 **({'do_fsync': False} if op.get('do_fsync') is False else {}), **cb_kw)
                 return 'ok'
             if kind == 'clean':
                 c.clean_storage(vacuum=op.get('vacuum', False))
@@ -388,10 +392,10 @@ class Runner:
                 rc.expected.difference_update(k for k in op['ks'] if isinstance(k, int))
                 return f'deleted={show_nats(cids)}'
             if kind == 'repack':
-                c.repack(compress_mode=_mode_obj(rc.dos, op['mode']))
+                c.repack(compress_mode=_mode_obj(rc.dos, op['mode']), **cb_kw)
                 return 'ok'
             if kind == 'repackOne':
-                c.repack_pack(str(op['p']), compress_mode=_mode_obj(rc.dos, op['mode']))
+                c.repack_pack(str(op['p']), compress_mode=_mode_obj(rc.dos, op['mode']), **cb_kw)
                 return 'ok'
             if kind == 'loosen':
                 try:
